@@ -452,6 +452,8 @@ class Program:
         self.path = path
         self.crate = j["crate"]
         self.fns = {k: Fn(k, v) for k, v in j["fns"].items()}
+        for f in self.fns.values():
+            f.prog = self
         self.adts = j["adts"]
         self.statics = j["statics"]
         self.impls = j["impls"]
@@ -488,7 +490,22 @@ class Program:
         return out
 
     def closures_of(self, key):
-        return [k for k in self.fns if k.startswith(key + "::{closure")]
+        """Closures (transitively) defined in `key`.  Uses the parent links, so that closures of an inlined private helper
+        (lint/normalize.py re-parents them) belong to the function the helper was inlined into."""
+        out = []
+        for k, f in self.fns.items():
+            if f.kind != "Closure":
+                continue
+            cur = f
+            for _ in range(8):
+                pk = cur.j.get("parent_fn")
+                if pk == key:
+                    out.append(k)
+                    break
+                cur = self.fns.get(pk)
+                if cur is None or cur.kind != "Closure":
+                    break
+        return out
 
     # ---- call graph ------------------------------------------------------------------
     def call_targets(self, inst_id, bb, with_model=False):
@@ -1057,6 +1074,10 @@ class PEval:
                 continue
             ok = True
             for d in ds:
+                if d[0] == "call" and self.assume is not None and self.body.locals[l]["ty"] == "bool" and len(ds) > 1:
+                    # a bool join of constants and predicate calls (e.g. an inlined `a() && b()` helper): the value of the
+                    # call is asked from the assumption when the path passes the call
+                    continue
                 if d[0] != "stmt" or d[3]["k"] != "=":
                     ok = False
                     break
@@ -1148,6 +1169,16 @@ class PEval:
             succs = body.succs(b, self.unwind)
             if b in stop_blocks and b != start:
                 continue
+            if t["k"] == "call" and not t["dest"]["p"] and t["dest"]["l"] in self._tracked:
+                probe = {"k": "switch", "targets": [[0, -1]], "otherwise": -2}
+                e = ("call", callee_path(t), [body.expr_of_operand(a) for a in t["args"]], b)
+                allowed = self.assume(body, b, probe, e) if self.assume else None
+                if allowed == {-2}:
+                    env[t["dest"]["l"]] = ("int", 1)
+                elif allowed == {-1}:
+                    env[t["dest"]["l"]] = ("int", 0)
+                else:
+                    env.pop(t["dest"]["l"], None)
             if t["k"] == "switch":
                 allowed = None
                 v = self._eval_operand(t["op"], env)
